@@ -44,6 +44,7 @@ type Program struct {
 	usedLemmas map[string]bool
 	comparable map[string]bool // interface types whose dynamic types are assumed comparable
 	ghostMaps  map[string]string // "#name" -> Go type of the key (ghost counters indexed by a value)
+	ghostVals  map[string]string // "#name" -> Go type of the value (default int)
 	guards     map[string]guardInfo // heap array "H_T.f" -> mutex guarding it
 	muIDs      map[string]int
 }
@@ -61,7 +62,7 @@ func loadProgram(repo string, overlayContract string, force bool) (*Program, err
 		Env: append(os.Environ(), "GOFLAGS=-mod=mod", "GOPROXY=off", "GOSUMDB=off", "GOTOOLCHAIN=local")}
 	p := &Program{repo: repo, contracts: map[string]*Contract{}, specs: map[string]*SpecFn{}, lemmas: map[string]*Lemma{},
 		ifaceCons: map[string]*Contract{}, pures: map[string]bool{}, funcs: map[string]*ssa.Function{},
-		tags: map[string]int{}, comparable: map[string]bool{}, ghostMaps: map[string]string{}, guards: map[string]guardInfo{}, appendLemmas: map[string][]string{}, usedLemmas: map[string]bool{}, fieldInvs: map[string]*Clause{}, elemInvs: map[string]*Clause{}, typeInvs: map[string]*Clause{}, strLits: map[string]string{}, srcLines: map[string][]string{}, impls: map[string][]*ssa.Function{}}
+		tags: map[string]int{}, comparable: map[string]bool{}, ghostMaps: map[string]string{}, ghostVals: map[string]string{}, guards: map[string]guardInfo{}, appendLemmas: map[string][]string{}, usedLemmas: map[string]bool{}, fieldInvs: map[string]*Clause{}, elemInvs: map[string]*Clause{}, typeInvs: map[string]*Clause{}, strLits: map[string]string{}, srcLines: map[string][]string{}, impls: map[string][]*ssa.Function{}}
 	// contract files: pkg/ggql/verif_contracts*.go in the tree; the mirror under <verif>/contracts is
 	// injected through an overlay for files the tree lacks (or for all of them in development mode)
 	mirrorDir := filepath.Dir(overlayContract)
